@@ -20,7 +20,7 @@ from harness import common
 GEN_MODULES = ['minimize']
 MODEL_TARGETS = ['model/M_Minimize.vo', 'model/M_MinimizeX.vo']
 PROOF_TARGETS = ['proofs/P_Minimize.vo', 'proofs/P_MinimizeWrap.vo', 'proofs/P_MinimizeScan.vo', 'proofs/P_MinimizeDeep.vo',
-                 'proofs/P_MinimizeNaN.vo', 'proofs/P_MinimizeDom.vo']
+                 'proofs/P_MinimizeNaN.vo', 'proofs/P_MinimizeDom.vo', 'proofs/P_MinimizeMulti.vo']
 LEVEL = 'proof'
 RULE = ('log-likelihood-ratio landscapes of real ZeroSigH0SingleDatasetTCLLHRatio instances (1..60 selected events, '
         '0..200 pure-background events, constant-array PDF ratios) with the optimum interior / at the lower / at the upper '
@@ -34,7 +34,7 @@ TRUSTED = [
     'axioms printed under the theorems at the real-number instance: ClassicalDedekindReals.sig_not_dec, sig_forall_dec, '
     'FunctionalExtensionality.functional_extensionality_dep, Classical_Prop.classic (Coq Reals / lra); the wrapper / status theorems that do not need '
     'an order are proved for every number system and are closed under the global context',
-    'translator/py2coq.py: reading of the 73 kernels of minimizer.py / parameters.py / llhratio.py (G_minimize.v)',
+    'translator/py2coq.py: reading of the 79 kernels of minimizer.py / parameters.py / llhratio.py (G_minimize.v)',
     'hand model M_Minimize.v of the control flow (loops as structural recursion on max_steps / max_repetitions), '
     'validated by this correspondence on every run',
     'extraction (ExtrOcamlBasic only) and the hand-written OCaml driver ocaml/c11/driver.ml incl. the float Num record',
@@ -901,7 +901,7 @@ def run_scanraw_case(ctx, case, lines, checks):
     def func(x, *a):
         ns, g = float(x[0]), float(x[1])
         v = (ns - c) * (ns - c) + g
-        if g in case['nan_at']:
+        if g in case['nan_at'] or ns >= case.get('nan_from', float('inf')):
             v = float('nan')
         return (np.float64(v), np.float64(2.0 * (ns - c)), np.float64(2.0))
     ps = E['ParameterSet']([mk_param('ns', case['init'][0], *case['bounds'][0]), mk_param('g', case['init'][1], *case['bounds'][1])])
@@ -925,7 +925,7 @@ def run_scanraw_case(ctx, case, lines, checks):
     lines.append(' '.join(toks))
     checks.append(('scan', case, got))
     site = 'Minimizer.minimize[NRNsScan2dMinimizerImpl]'
-    finite = [g for g in p2s if g not in case['nan_at']]
+    finite = [g for g in p2s if g not in case['nan_at']] if 'nan_from' not in case else []
     ctx.count('scanraw:' + ('all-nan' if not finite else 'some-nan' if len(finite) < len(p2s) else 'no-nan'))
     if res is not None:
         if math.isnan(res[1]):
@@ -940,6 +940,176 @@ def run_scanraw_case(ctx, case, lines, checks):
     elif finite and case['max_steps'] >= 50:
         ctx.violation(site, 'raises-although-finite-steps-exist', 'the scan raised although finite scan steps exist',
                       case=dict(case), impl=got, predicate='a NaN scan step does not hide the finite ones')
+
+
+
+# ------------------------------------------------------------------ multi-dataset log-likelihood ratio with NR (round 4)
+def build_multi(case, impl):
+    """a real MultiDatasetTCLLHRatio over real ZeroSigH0SingleDatasetTCLLHRatio instances; only the detector signal
+    yield weights service is a stub (fixed relative signal efficiencies a_j)"""
+    E = env()
+    from skyllh.core.llhratio import MultiDatasetTCLLHRatio
+    from skyllh.core.services import DatasetSignalWeightFactorsService, SrcDetSigYieldWeightsService
+
+    class FixedYieldWeights(SrcDetSigYieldWeightsService):
+        def __init__(self, a_j):
+            self._a_jk = np.asarray(a_j, dtype=np.float64)[:, np.newaxis]
+            self._a_jk_grads = dict()
+
+        @property
+        def n_datasets(self):
+            return self._a_jk.shape[0]
+
+        def calculate(self, src_params_recarray):
+            pass
+
+        def change_shg_mgr(self, shg_mgr):
+            pass
+    subs = [build_llh(dict(case, R0=ds['R0'], N=ds['N']), E['mz'].NR1dNsMinimizerImpl(cfg=E['cfg'])) for ds in case['datasets']]
+    sdw = FixedYieldWeights(case['a'])
+    dsw = DatasetSignalWeightFactorsService(sdw)
+    return MultiDatasetTCLLHRatio(cfg=E['cfg'], pmm=subs[0].pmm, minimizer=E['mz'].Minimizer(impl, max_repetitions=case['max_reps']),
+                                  src_detsigyield_weights_service=sdw, ds_sig_weight_factors_service=dsw, llhratio_list=subs)
+
+
+def multi_ll(case, ns):
+    f = [a / sum(case['a']) for a in case['a']]
+    return math.fsum(ll_exact(ds, ns * fj) for fj, ds in zip(f, case['datasets']))
+
+
+def multi_grad(case, ns):
+    f = [a / sum(case['a']) for a in case['a']]
+    return math.fsum(fj * grad_exact(ds, ns * fj) for fj, ds in zip(f, case['datasets']))
+
+
+def multi_argmax(case, lo, hi):
+    if multi_grad(case, lo) <= 0:
+        return lo
+    if multi_grad(case, hi) >= 0:
+        return hi
+    a, b = lo, hi
+    for _ in range(200):
+        m = 0.5 * (a + b)
+        if multi_grad(case, m) > 0:
+            a = m
+        else:
+            b = m
+    return 0.5 * (a + b)
+
+
+def run_multi_case(ctx, case, lines, checks):
+    """NR-1D through the real MultiDatasetTCLLHRatio.maximize: the objective closure calls the composite evaluate and
+    calculate_ns_grad2; the reported ns must be the independently bisected stationary point within ns_tol"""
+    E = env()
+    impl = E['RecNR'](cfg=E['cfg'], ns_tol=case['ns_tol'], max_steps=case['max_steps'])
+    impl.reset()
+    llh = build_multi(case, impl)
+    with warnings.catch_warnings(), np.errstate(all='ignore'):
+        warnings.simplefilter('ignore')
+        try:
+            (llmax, x, st) = llh.maximize(E['RSS'](1))
+            got = ['Ok', hx(llmax), [hx(v) for v in x], int(st['warnflag']), int(st['niter']), hx(st['last_nr_step']),
+                   [hx(c[0][0]) for c in impl.calls]]
+            res = (float(llmax), float(x[0]), int(st['warnflag']))
+        except Exception as ex:
+            got = ['Err', exc_kind(ex)]
+            res = None
+    tab = table_from(impl.calls, -1.0)
+    lo, hi = case['bounds'][0]
+    lines.append(' '.join(['nr', '1', '0', hx(case['ns_tol']), str(case['max_steps']), str(case['max_reps']), hx(lo), hx(hi),
+                           hx(case['init'][0]), str(len(tab))] + tab_tokens(tab)))
+    checks.append(('nr', case, got))
+    site = 'MultiDatasetTCLLHRatio.maximize[NR1dNsMinimizerImpl]'
+    rc = {k: case[k] for k in case if k != 'valid'}
+    ctx.count('multi-datasets:%d' % len(case['datasets']))
+    if res is None:
+        ctx.count('multi-raised:' + got[1])
+        return
+    (llmax, ns, flag) = res
+    if not (lo <= ns <= hi):
+        ctx.violation(site, 'optimum-out-of-bounds', f'ns = {ns!r}', case=rc, impl=got, predicate='lo <= ns <= hi')
+        return
+    want = multi_ll(case, ns)
+    if not abs(llmax - want) <= 1e-9 * (abs(want) + 1.0):
+        ctx.violation(site, 'value-not-at-optimum', f'log_lambda_max {llmax!r}, independent value {want!r}', case=rc, impl=got,
+                      predicate='log_lambda_max == sum_j logL_j(ns f_j)')
+    if flag > 0:
+        ctx.violation(site, 'silent-non-convergence', f'warnflag {flag}', case=rc, impl=got, predicate='not converged => exception')
+    xs = multi_argmax(case, lo, hi)
+    g = multi_grad(case, ns)
+    if flag == -2 and not (ns == lo and g <= 1e-9):
+        ctx.violation(site, 'lower-bound-exit-without-outward-slope', f'slope {g!r}', case=rc, impl=got, predicate='-2 => slope <= 0')
+    if flag == -1 and not (ns == hi and g >= -1e-9):
+        ctx.violation(site, 'upper-bound-exit-without-outward-slope', f'slope {g!r}', case=rc, impl=got, predicate='-1 => slope >= 0')
+    if flag == 0 and lo < xs < hi:
+        ctx.count('multi-interior')
+        ctx.stats['multi-max-err-over-tol-1e6'] = max(ctx.stats.get('multi-max-err-over-tol-1e6', 0),
+                                                     int(1e6 * abs(ns - xs) / case['ns_tol']))
+        if not abs(ns - xs) <= case['ns_tol']:
+            ctx.violation(site, 'stationary-point-beyond-tolerance',
+                          f'reported ns = {ns!r}, stationary point {xs!r}: |diff| = {abs(ns - xs)!r} > ns_tol = {case["ns_tol"]!r} '
+                          f'(niter {got[4]})', case=rc, impl=got, predicate='|ns - argmax| <= ns_tol')
+    ini = case['init'][0]
+    if not llmax >= multi_ll(case, ini) - abs(g) * abs(ini - ns) - 1e-9 * (abs(want) + 1.0):
+        ctx.violation(site, 'below-initial-value', 'maximised value below the value at the initial point', case=rc, impl=got,
+                      predicate='logL(x_ret) >= logL(x_init) - |slope| |dx|')
+
+
+def multi_datasets(rng, n, nev=30, strong=(60.0, 90.0)):
+    out = []
+    for _ in range(n):
+        R0 = [math.exp(rng.gauss(0, 1)) for _ in range(nev)] + [s * rng.uniform(0.8, 1.2) for s in strong]
+        out.append({'R0': R0, 'N': len(R0) + 8})
+    return out
+
+
+def gen_multi_case(ctx, rng):
+    n = rng.choice([2, 3, 4, 5, 6])
+    a = [rng.choice([1.0, 1.0, 0.5, 2.0, 3.0]) for _ in range(n)]
+    ds = multi_datasets(rng, n, nev=rng.choice([5, 15, 30]))
+    fmax = max(a) / sum(a)
+    hi = 0.85 * min(d['N'] for d in ds) / fmax
+    return {'kind': 'multi', 'impl': 'nr1d-multi', 'datasets': ds, 'a': a, 'R0': ds[0]['R0'], 'N': ds[0]['N'],
+            'bounds': [[0.0, hi]], 'init': [rng.choice([0.0, 1.0, hi, rng.uniform(0, hi)])],
+            'ns_tol': rng.choice([1e-3, 1e-2, 1e-4]), 'max_steps': 100, 'max_reps': 100, 'valid': True}
+
+
+# ------------------------------------------------------------------ NR-1D on a raw objective that is NaN at a bound
+def run_nrraw_case(ctx, case, lines, checks):
+    """Minimizer.minimize(NR1dNsMinimizerImpl) on f(ns) = (ns - c)^2, NaN (with finite derivatives) for
+    ns >= nan_from: a fit forced onto that bound must not return the NaN value as converged (fix 74450e7)"""
+    E = env()
+    impl = E['RecNR'](cfg=E['cfg'], ns_tol=case['ns_tol'], max_steps=case['max_steps'])
+    impl.reset()
+    c = case['center']
+
+    def func(x, *a):
+        ns = float(x[0])
+        v = (ns - c) * (ns - c)
+        if ns >= case['nan_from']:
+            v = float('nan')
+        return (np.float64(v), np.float64(2.0 * (ns - c)), np.float64(2.0))
+    ps = E['ParameterSet']([mk_param('ns', case['init'][0], *case['bounds'][0])])
+    with warnings.catch_warnings(), np.errstate(all='ignore'):
+        warnings.simplefilter('ignore')
+        try:
+            (x, fmin, st) = E['mz'].Minimizer(impl).minimize(E['RSS'](1), ps, func)
+            got = ['Ok', hx(-fmin), [hx(v) for v in x], int(st['warnflag']), int(st['niter']), hx(st['last_nr_step']),
+                   [hx(cc[0][0]) for cc in impl.calls]]
+            res = (float(x[0]), float(fmin), int(st['warnflag']))
+        except Exception as ex:
+            got = ['Err', exc_kind(ex)]
+            res = None
+    tab = table_from(impl.calls, -1.0)
+    lo, hi = case['bounds'][0]
+    lines.append(' '.join(['nr', '1', '0', hx(case['ns_tol']), str(case['max_steps']), '100', hx(lo), hx(hi),
+                           hx(case['init'][0]), str(len(tab))] + tab_tokens(tab)))
+    checks.append(('nr', case, got))
+    ctx.count('nrraw:' + got[0])
+    if res is not None and math.isnan(res[1]):
+        ctx.violation('Minimizer.minimize[NR1dNsMinimizerImpl]', 'nan-value-reported-as-converged',
+                      f'(xmin={res[0]!r}, fmin=nan, warnflag={res[2]}) returned', case=dict(case), impl=got,
+                      predicate='a NaN function value is never a converged result')
 
 
 # ------------------------------------------------------------------ iminuit helper functor (stateful cache)
@@ -1200,6 +1370,31 @@ def corpus_cases():
     for nan_at in ([0.0], [0.5], [1.0], [0.0, 0.25], [0.0, 0.25, 0.5, 0.75, 1.0], []):
         out.append(('scanraw', dict(raw, nan_at=nan_at)))
     out.append(('scanraw', dict(raw, nan_at=[0.0], center=-2.0)))
+    # round 4 (C11-8): the objective is NaN with finite derivatives AT the upper bound and the fit is forced onto it
+    # (overshooting step clipped to the bound / initial value on the bound): (x=[hi], f=nan, warnflag=-1) must not be returned
+    nrraw = {'kind': 'raw', 'impl': 'nr1d-raw', 'center': 15.0, 'nan_from': 10.0, 'bounds': [[0.0, 10.0]], 'ns_tol': 1e-3,
+             'max_steps': 100, 'N': 1, 'R0': [1.0], 'valid': True}
+    out.append(('nrraw', dict(nrraw, init=[1.0])))
+    out.append(('nrraw', dict(nrraw, init=[10.0])))
+    out.append(('nrraw', dict(nrraw, init=[9.999])))
+    out.append(('scanraw', dict(raw, nan_at=[], nan_from=10.0, center=15.0)))
+    out.append(('scanraw', dict(raw, nan_at=[], nan_from=10.0, center=15.0, init=[10.0, 0.5])))
+    # the same through the real class: log Lambda is NaN (finite derivatives) for ns >= N when N = N'; all S/B = 50
+    out.append(('nr', {'kind': 'upper', 'R0': [50.0] * 6, 'N': 6, 'impl': 'nr1d', 'bounds': [[0.0, 9.0]], 'init': [1.0],
+                       'where': 'upper', 'ns_tol': 1e-3, 'max_steps': 100, 'max_reps': 100, 'valid': True}))
+    out.append(('nr', {'kind': 'upper', 'R0': [50.0] * 6, 'N': 6, 'impl': 'nr1d', 'bounds': [[0.0, 9.0]], 'init': [9.0],
+                       'where': 'upper', 'ns_tol': 1e-3, 'max_steps': 100, 'max_reps': 100, 'valid': True}))
+    # round 4 (C11-7): NR through a real MultiDatasetTCLLHRatio with an interior optimum: 3..6 comparable data sets,
+    # two very unequal ones, two tolerances
+    import random as _random
+    r4 = _random.Random(4)
+    for (a, tol) in (([1.0, 1.0, 1.0], 1e-3), ([1.0] * 4, 1e-3), ([1.0] * 5, 1e-2), ([1.0] * 6, 1e-3), ([1.0, 9.0], 1e-3),
+                     ([1.0, 2.0, 3.0, 4.0], 1e-3), ([1.0], 1e-3), ([1.0, 1.0], 1e-3)):
+        ds = multi_datasets(r4, len(a))
+        hi = 0.85 * min(d['N'] for d in ds) / (max(a) / sum(a))
+        out.append(('multi', {'kind': 'multi', 'impl': 'nr1d-multi', 'datasets': ds, 'a': a, 'R0': ds[0]['R0'], 'N': ds[0]['N'],
+                              'bounds': [[0.0, hi]], 'init': [1.0], 'ns_tol': tol, 'max_steps': 100, 'max_reps': 100,
+                              'valid': True}))
     return out
 
 
@@ -1221,6 +1416,10 @@ def run_cases(ctx, cases):
             run_layout_case(ctx, c, lines, checks)
         elif k == 'scanraw':
             run_scanraw_case(ctx, c, lines, checks)
+        elif k == 'nrraw':
+            run_nrraw_case(ctx, c, lines, checks)
+        elif k == 'multi':
+            run_multi_case(ctx, c, lines, checks)
         else:
             run_wrap_case(ctx, c, lines, checks)
     return lines, checks
@@ -1253,6 +1452,8 @@ def run(ctx):
                       else 'wrap', c))
     for _ in range(n_scr):
         cases.append(('wrap', gen_scripted_case(ctx, rng)))
+    for _ in range(ctx.budget(20, 400)):
+        cases.append(('multi', gen_multi_case(ctx, rng)))
     functor_probes(ctx)
     lines, checks = run_cases(ctx, cases)
     for (k, c) in cases[3:6]:
@@ -1280,7 +1481,7 @@ def replay(ctx, rp):
     c.setdefault('valid', True)
     if 'script' in c:
         c['script'] = [tuple(s) for s in c['script']]
-    k = {'nr1d': 'nr', 'nrscan2d': 'scan', 'nrscan2d-raw': 'scanraw'}.get(c['impl'], 'wrap')
+    k = {'nr1d': 'nr', 'nrscan2d': 'scan', 'nrscan2d-raw': 'scanraw', 'nr1d-raw': 'nrraw', 'nr1d-multi': 'multi'}.get(c['impl'], 'wrap')
     if c['impl'] == 'iminuit-functor':
         return functor_probes(ctx)
     if c.get('kind') != 'raw' and len(c.get('bounds', [])) == 2 and c['bounds'][0][1] <= 1.0 and 'p2s' not in c and c.get('impl') in ('nr1d', 'nrscan2d') and 'where' not in c and 'ns_tol' not in c:
